@@ -53,7 +53,7 @@ Section Inst.
 
   Lemma passes_verdict c : VerdictOK FO R c (passes c) (passes c).
   Proof.
-    intros e si dec v G1 _ _ H. apply verdict_fields in H.
+    intros e si dec v _ G1 _ _ H. apply verdict_fields in H.
     destruct v as [| |[fb|]|m x]; auto.
     - destruct H as (He & _ & Hs & _). unfold PFM, passes. rewrite He. auto.
     - destruct H as (He & _ & Hs & _). unfold PM, passes. rewrite He, Hs. auto.
@@ -181,7 +181,7 @@ Section Inst.
 
   Lemma bom_verdict c : VerdictOK FO R c (bom_ok c) (bom_fb c).
   Proof.
-    intros e si dec v _ G2 _ H. apply verdict_fields in H.
+    intros e si dec v _ _ G2 _ H. apply verdict_fields in H.
     destruct v as [| |[fb|]|m x]; auto.
     - destruct H as (He & Hb & Hs & _). unfold PFM, bom_fb. rewrite He. auto.
     - destruct H as (He & Hb & Hs & _). unfold PM, bom_ok. rewrite He, Hs, Hb. auto.
